@@ -101,6 +101,33 @@ CLAIMED.update({
   },
 })
 
+CLAIMED.update({
+  "C06": {
+    "text": "End-to-end symbolic execution of the real srt.writer.from_model and vtt.writer.from_model (ISD sequence, ISD "
+            "filters, paragraph/cue formatting) on 13 documents whose begin/end times are symbolic rationals; the produced "
+            "text (real, with hole tokens for formatted time fields) is parsed by a strict reference grammar and compared, "
+            "per path, with the cues an independent oracle derives: one cue per interval between significant times with "
+            "non-blank visible text (R-ISD), begin/end == nearest millisecond (solver query on the hole terms), unbounded "
+            "last interval +10 s, payload == visible text in region then document order with line breaks.",
+    "note": "ClockTime.from_seconds runs for real and its contract, proved by C12, is added to the path condition; sig-time "
+            "list taken from the implementation (C02). Ruby: only base text required. Known findings in known_findings.json.",
+    "technique": "symbolic execution with z3 Real proxies + hole-token text, differential against R-ISD/R-CUE oracles",
+    "design": "DESIGN.md §3 C06, §7.5 R-CUE",
+  },
+  "C07": {
+    "text": "Same symbolic runs as C06: every output is parsed under strict SubRip/WebVTT grammars (header/STYLE placement, "
+            "numbering, begin<end and ordering as solver queries over the symbolic time fields, no empty line or --> in "
+            "payloads, escaped & and <, balanced nested tags); per character the enclosing b/i/u/colour/background tags are "
+            "compared with an independent style resolver; no tags when formatting is off; align:/line: settings vs the "
+            "paragraph alignment and the region geometry; writers must not raise.",
+    "note": "Region geometry for line: is concrete (two regions); paragraphs of different alignment merged into one cue carry "
+            "no expectation. Known findings: sub-millisecond intervals raise ValueError; nested weight reset; merged-paragraph "
+            "alignment lost.",
+    "technique": "symbolic execution + strict reference parser over hole-token text, SMT queries on time-field terms",
+    "design": "DESIGN.md §3 C07, §7.5 R-CUE",
+  },
+})
+
 NOT_YET = {
 }
 
